@@ -251,8 +251,15 @@ func (s *Schema) buildRels() {
 
 	for _, typ := range s.Types {
 		for _, rel := range typ.Rels {
-			relName := rel.String()
-			s.rels[relName] = rel.Normalize()
+			// Rel.String is not injective when names contain
+			// underscores ("a_b"+"c" and "a"+"b_c"), so the quoted
+			// names of the normalized form are used as the key.
+			norm := rel.Normalize()
+			relName := fmt.Sprintf(
+				"%q %q %q %q",
+				norm.FromType, norm.FromName, norm.ToType, norm.ToName,
+			)
+			s.rels[relName] = norm
 		}
 	}
 }
